@@ -2,6 +2,7 @@ CONSTANTS
   Configs <- MCConfigs
   Profiles <- MCProfiles
   VoaGrid <- MCVoaGrid
+  Followed <- MCFollowed
   LossSet <- MCLossesQuick
   MaxSpans = 2
   MultiUser = FALSE
@@ -20,4 +21,6 @@ INVARIANT OperatorOffsetKept
 INVARIANT OperatorGainKept
 INVARIANT VoaKept
 INVARIANT NeverAboveMaxOutput
+INVARIANT DesignedAgainIsTheSame
 INVARIANT NoTieOnGrid
+PROPERTY UseKeepsTheDesign
